@@ -206,6 +206,11 @@ def make_witness(R, pid, what):
         o = hubnative.order_check(R, oid, key, what)
         if o["confirmed"]:
             return o
+        if "joined-path" in name or "outside" in name or pid == "C11":
+            x = hubnative.outside_check(R, oid, key, only)
+            if x["confirmed"]:
+                return x
+            return {"confirmed": False, "detail": r["detail"] + "; " + o["detail"] + "; " + x["detail"]}
         return {"confirmed": False, "detail": r["detail"] + "; " + o["detail"]}
     return w
 
